@@ -126,7 +126,7 @@ Section Frame.
 
   Lemma sem_FInv a s : safeS a = true -> FInv s -> FInv (fst (sem a s)).
   Proof.
-    intros Hs HI. destruct a as [p|p|d|p q|p|i raises|off|d| | |t|t|p|src dst|src dst|p|p|e|t|t rel n|t|t| |p q|p q|t|p|n];
+    intros Hs HI. destruct a as [p|p|d|p q|p|i raises|off|d| | |t|t|p|src dst|src dst|p|p|e|t|t rel n|t|t| |p q|p q|t|p|n| ];
       simpl in *; try (eapply FInv_same_fs; [| |exact HI]; simpl; auto; fail).
     - (* AMkdtemp *)
       destruct (lookup (s_fs s) d) eqn:E; [eapply FInv_same_fs; [| |exact HI]; simpl; auto|].
